@@ -20,6 +20,8 @@ def _literal_text(value) -> str:
     """
     A constant as expression text (quotes and backslashes escaped): user values are not pasted into expression source.
     """
+    if not isinstance(value, (str, bool, int, float, type(None))):
+        value = float(value)  # numpy numbers, Decimal, Fraction ...
     return str(data_algebra.expr_rep.Value(value).to_python())
 
 
